@@ -495,6 +495,17 @@ def _op_build(ctx, W, st):
     except Exception as e:
         ctx.violate("C13", "create-tx-raised", {"exc": type(e).__name__, "msg": str(e)[:200]})
         return
+    # the same call again with the very same argument objects must give the same transaction
+    try:
+        tx_again = W.net.tx_utils.create_tx(objs, payables, fee=fee, lock_time=st["lock_time"], version=st["version"])
+        if [o.coin_value for o in tx_again.txs_out] != [o.coin_value for o in tx.txs_out] or tx_again.as_bin() != tx.as_bin():
+            ctx.violate("C13", "create-tx-not-repeatable", {"first": [o.coin_value for o in tx.txs_out],
+                                                            "second": [o.coin_value for o in tx_again.txs_out]})
+    except ValueError:
+        if not must_raise:
+            ctx.violate("C13", "create-tx-not-repeatable", {"second": "ValueError"})
+    except Exception as e:
+        ctx.violate("C13", "create-tx-raised", {"exc": type(e).__name__, "msg": str(e)[:200], "when": "second call"})
     if must_raise:
         ctx.violate("C13", "insufficient-funds-not-refused", {"inputs": total_in, "fixed": fixed, "fee": fee_n, "unspecified": zero,
                                                               "outputs": [o.coin_value for o in tx.txs_out]})
